@@ -47,13 +47,13 @@ def handler (E : Env) (secret : String) (username realm : String) (now : Int) : 
   | none => none
   | some t => if t < now then none else some (username, E.authKey username realm (E.pw secret username))
 
-/-- the part of a REST username before the first colon, and the user id (second field, or the whole
-    username when there is no colon) — `strings.Split(username, ":")` -/
+/-- the part of a REST username before the first colon, and the user id (everything behind that colon, or the
+    whole username when there is no colon) — `strings.SplitN(username, ":", 2)` -/
 def restFields (username : String) : String × String :=
   match username.splitOn ":" with
   | [] => ("", username)
   | [a] => (a, username)
-  | a :: b :: _ => (a, b)
+  | a :: rest => (a, ":".intercalate rest)
 
 /-- `LongTermTURNRESTAuthHandler(secret)` at time `now` -/
 def handlerREST (E : Env) (secret : String) (username realm : String) (now : Int) : Option (String × List UInt8) :=
